@@ -280,6 +280,15 @@ test_exclude_files_rule_config_with_trailing_slash_path_prefix if {
 	rules_to_run == {}
 }
 
+test_exclude_files_custom_aggregate_rule_with_path_prefix if {
+	agg := main.aggregate with data.custom.regal.rules as {"foo": {"bar": {"aggregate": {"baz"}}}}
+		with config.for_rule as {"level": "error", "ignore": {"files": ["bar/*"]}}
+		with input.regal.file.name as "/foo/bar/p.rego"
+		with config.path_prefix as "/foo"
+
+	agg == {}
+}
+
 test_force_exclude_file_eval_param if {
 	policy := `package p
 
